@@ -422,11 +422,14 @@ class Negative(Term):
     def replace_table(self, current_table: Optional["Table"], new_table: Optional["Table"]) -> "Negative":
         self.term = self.term.replace_table(current_table, new_table)
 
-    def get_sql(self, **kwargs: Any) -> str:
+    def get_sql(self, with_alias: bool = False, **kwargs: Any) -> str:
         term_sql = self.term.get_sql(**kwargs)
         if isinstance(self.term, ArithmeticExpression) or term_sql.startswith("-"):
             term_sql = "({})".format(term_sql)
-        return "-{term}".format(term=term_sql)
+        sql = "-{term}".format(term=term_sql)
+        if with_alias:
+            return format_alias_sql(sql, self.alias, **kwargs)
+        return sql
 
 
 class ValueWrapper(Term):
